@@ -305,3 +305,36 @@ func genKF(seed int64, allow map[string]bool) *Scenario {
 	}
 	return b.sc
 }
+
+// genFault: the game backend fails at chosen calls (C13).
+func genFault(seed int64, allow map[string]bool) *Scenario {
+	b := newBuilder(seed, 5)
+	r := b.r
+	b.sc.N = 2 + r.Intn(6)
+	b.sc.Blind = []int64{1, int64(r.Intn(2)), 0, 1, 2}
+	b.seatPlayers(2 + r.Intn(min(b.sc.N-1, 3)))
+	b.add(Op{Op: "start"})
+	kinds := []string{"fold", "check", "call", "bet", "raise", "allin", "pass"}
+	for h, hs := 0, 2+r.Intn(4); h < hs; h++ {
+		hp := b.plan()
+		hp.FailOrd = map[int]int{}
+		hp.FailKind = map[string]int{}
+		switch r.Intn(4) {
+		case 0: // one failing player action somewhere in the hand, possibly repeated
+			hp.FailKind[kinds[r.Intn(len(kinds))]] = 1 + r.Intn(3)
+		case 1: // several kinds
+			for i := 0; i < 3; i++ {
+				hp.FailKind[kinds[r.Intn(len(kinds))]] = 1 + r.Intn(2)
+			}
+		case 2: // by ordinal: any backend call of the hand (automatic steps included)
+			hp.FailOrd[2+r.Intn(20)] = 1
+		case 3: // an automatic step fails
+			hp.FailKind[[]string{"readyall", "blinds", "next", "ante", "create"}[r.Intn(5)]] = 1
+		}
+		if r.Intn(2) == 0 {
+			hp.Strength = r.Perm(10)
+		}
+		b.hand(hp)
+	}
+	return b.sc
+}
